@@ -18,7 +18,7 @@ LEVEL = "model_checking"
 _ALPHABET = {}
 _SALT = 0
 
-FULL = {"open": True, "copy": True, "deep": True, "pickle": True, "doc": True, "files": True, "files2": True,
+FULL = {"open": True, "copy": True, "copy2": True, "deep": True, "pickle": True, "doc": True, "files": True, "files2": True,
         "rekey": True, "move": True, "reopen": True, "cache": True, "newproject": True,
         "decoys": ("bak", "hex31", "hex33", "tmp")}
 # closed sub-universe explored deeper: 2 state points, 1 file, 1 doc key, 2 slots per job
@@ -83,7 +83,7 @@ def run(ctx):
     })
     # start from a populated state too: both jobs initialised with payload and a shallow copy each
     _ALPHABET = dict(CLOSED, _name="closed")
-    root = (("open", "A", 0), ("write", "A", "f1"), ("copy", "A", "Ac"), ("open", "B", 1), ("init", "B"))
+    root = (("open", "A", 0), ("write", "A", "f1"), ("copy", "A", "Ac"), ("copy", "A", "Ae"), ("open", "B", 1), ("init", "B"))
     st3 = engine_h.explore(ctx, _exec, max_depth=3 if ctx.quick else 4, chunk=16, root=root)
     engine_h.fill_report(report, st3)
     report.coverage["bounds"]["rooted_closed_depth_beyond_root"] = 3 if ctx.quick else 4
